@@ -212,6 +212,28 @@ class PythonExpressionMapper(StringifyMapper):
             return self._name_manager.name_function(expr.name)
         return self._name_manager[expr.name]
 
+    def map_comparison(self, expr, enclosing_prec, *args, **kwargs):
+        # Python chains comparisons ("a < b == c" means "a < b and b == c"),
+        # so an operand that is itself a comparison needs parentheses.
+        from pymbolic.mapper.stringifier import (
+                PREC_BITWISE_OR, PREC_COMPARISON)
+        return self.parenthesize_if_needed(
+                "{} {} {}".format(
+                    self.rec(expr.left, PREC_BITWISE_OR, *args, **kwargs),
+                    expr.operator,
+                    self.rec(expr.right, PREC_BITWISE_OR, *args, **kwargs)),
+                enclosing_prec, PREC_COMPARISON)
+
+    def map_logical_not(self, expr, enclosing_prec, *args, **kwargs):
+        # In Python, "not" binds more loosely than comparisons and arithmetic
+        # do (pymbolic's own syntax gives it the precedence of a unary minus).
+        from pymbolic.mapper.stringifier import (
+                PREC_COMPARISON, PREC_LOGICAL_AND)
+        return self.parenthesize_if_needed(
+                "not " + self.rec(
+                    expr.child, PREC_COMPARISON, *args, **kwargs),
+                enclosing_prec, PREC_LOGICAL_AND)
+
     def map_numpy_array(self, expr, *args):
         if len(expr.shape) > 1:
             raise ValueError(
